@@ -2,7 +2,7 @@
 #define VP_ASYM_SHARED_H
 #include "softhsm_env.h"
 enum vp_in_idx { I_algoNull, I_newKeyNull, I_getKey_rv, I_init_ok, VP_IN_N };
-enum vp_out_idx { O_getalgo_n, O_getalgo_kind, O_getkey_n, O_getkey_kind, O_init_n, O_set_optype, O_set_n, O_set_multi, O_set_single, VP_OUT_N };
+enum vp_out_idx { O_getalgo_n, O_getalgo_kind, O_getkey_n, O_getkey_kind, O_init_n, O_set_optype, O_set_n, O_set_multi, O_set_single, O_set_mech, VP_OUT_N };
 VP_C_BEGIN
 extern CK_ULONG vp_in[VP_IN_N];
 extern unsigned char vp_in_pss[24];
